@@ -95,7 +95,13 @@ strings).  Round 12 (17 of 20): an out-of-range `uint8` accepted when written as
 word (C09m: padded spellings in C09 and C13); the candidate phrase named in the error text of a failed vanity
 search (C12m: the runner reads stderr of `new`); a second low-s "normalisation" with one mistyped digit in
 its half-order constant, wrong for one signature in 2^19 (C05m: a corpus of signatures whose `s` lies within
-2^-8 .. 2^-24 of n/2, found by signing with the code itself).  Two things held throughout:
+2^-8 .. 2^-24 of n/2, found by signing with the code itself).  Rounds 13–14 (18 and 17 of 20): the
+text `"true"` for a `bool` member (C09n); a vanity passphrase trimmed, or read from standard input when it is `-`
+(C18n, C18p: blank-edged and sentinel-like vanity passphrases); control characters 0x10..0x19 that a case fold
+with `| 0x20` turns into digits (C17p: the prefix sweep takes every byte value); quotes stripped by `FromStr`
+but not by `from_phrase` (C01p: the in-process op runs both entry points and requires one verdict).  Round 14
+also brought the first changes to data and constants (a respelled word of the embedded list, C12p) — the
+occasion for registering the table theorems under C12 and for the source tie of §13.6.  Two things held throughout:
 every miss was a missing *input family or observable*, never a wrong theorem or model, and every
 family added for one property was then applied to the others it fits.
 
